@@ -201,8 +201,8 @@ def record {K α σ : Type} (lab : Nat → K) (q : Nat → List K) (user : K →
   (List.range (n + 1)).map (fun k => (lab k, machine q user upd s0 k))
 
 /-- Selection of float-keyed events (control times, correlation times) by step:
-    the events whose time rounds to step `k`. -/
-def selectAt {K β : Type} (toStep : K → Int) (events : List (K × β)) (k : Nat) : List β :=
-  (events.filter (fun e => toStep e.1 == (k : Int))).map (·.2)
+    the events whose time is converted to step `k` (`hit t k`). -/
+def selectAt {K β : Type} (hit : K → Nat → Bool) (events : List (K × β)) (k : Nat) : List β :=
+  (events.filter (fun e => hit e.1 k)).map (·.2)
 
 end OQuPyVerif.TimeShift
